@@ -26,6 +26,15 @@ m = {
          'kind_free_text': 'CrossHair 0.0.110 symbolic execution of the real s3transfer code (z3 5.1 decides every '
                            'branch), semantic-shim plugin /verif/xh/plugmod.py, one process per obligation case, '
                            'reachability twins, concrete replay of counterexamples'},
+        {'name': 'NS', 'path': '/verif/vlib/ns.py',
+         'serves_properties': ['C02', 'C03', 'C04', 'C05', 'C06', 'C07', 'C08', 'C09', 'C10', 'C11', 'C16', 'C18'],
+         'kind_free_text': 'nested (LIFO) schedules of the real TransferManager: model executor + model threading '
+                           'primitives, schedule positions are symbolic integers explored by CrossHair'},
+        {'name': 'CO', 'path': '/verif/vlib/co.py',
+         'serves_properties': ['C02', 'C03', 'C04', 'C05', 'C07', 'C08', 'C10', 'C11', 'C12', 'C13', 'C16', 'C17', 'C19'],
+         'kind_free_text': 'generator co-versions of the real methods produced from the source by an AST transformer on '
+                           'every run; statement-level (also non-LIFO) interleavings with symbolic preemptions / '
+                           'priorities, explored by CrossHair'},
         {'name': 'lemmas', 'path': '/verif/lemmas', 'serves_properties': ['C14'],
          'kind_free_text': 'stand-alone SMT-LIB lemmas (z3 4.8.12, z3 5.1, cvc5) justifying shim S2'},
     ],
